@@ -52,6 +52,9 @@ def run(prog):
             if len(cf) != 1:
                 raise CheckerError("TD: closure %s not found" % clo[2])
             r = strip(cf[0].terms.ret)
+            if isinstance(r, tuple) and r[0] == "un" and r[1] == "Not" and isinstance(strip(r[2]), tuple) and \
+                    strip(r[2])[0] == "bin" and strip(r[2])[1] == "Eq":
+                r = ("bin", "Ne", strip(r[2])[2], strip(r[2])[3])  # !(a == b)
             caps = [strip(c) for c in clo[4]]
             ok_shape = (isinstance(r, tuple) and r[0] == "bin" and r[1] == "Ne"
                         and {_k(r[2]), _k(r[3])} == {"label", "upvar"})
